@@ -410,6 +410,763 @@ def emit(name, n, blk, kind):
     return "\n".join(out)
 
 
+
+# ------------------------------------------------------------------------------------------------
+# round four: the LU path and DiagonalMatrix -- loop headers, statement order, branch conditions, call arguments
+# and the scalar kernels of every update statement
+# ------------------------------------------------------------------------------------------------
+# The loops of luDecomposition / the LU branches of solve, invert, determinant / the three functors / the
+# DiagonalMatrix members are parsed into a small statement tree (for / if / plain statement; braces are
+# transparent).  The tree is matched statement by statement against the shape the hand-written model
+# (Model/C02.lean) mirrors; loop variables and locals may be renamed, whitespace / braces / `i++` vs `++i` are
+# irrelevant, the right-hand sides are parsed with the expression grammar above (so commuted factors etc. only
+# change the generated kernel, and the tie theorems of Props/C02.lean, proved with `ring`, still hold).
+# Everything else raises TranslateError.
+
+def normalize(src):
+    """collapse whitespace; no blanks around punctuation"""
+    s = re.sub(r"\s+", " ", src)
+    s = re.sub(r"\s*([^\w\s])\s*", r"\1", s)
+    return s.strip()
+
+
+def _match_paren(s, p, op="(", cl=")"):
+    depth = 0
+    i = p
+    while i < len(s):
+        c = s[i]
+        if c == '"':
+            i += 1
+            while i < len(s) and s[i] != '"':
+                i += 2 if s[i] == "\\" else 1
+        elif c == op:
+            depth += 1
+        elif c == cl:
+            depth -= 1
+            if depth == 0:
+                return i
+        i += 1
+    raise TranslateError("unbalanced %s%s in %r" % (op, cl, s[p:p + 40]))
+
+
+def parse_stmt(s, p):
+    """one statement of normalized text starting at p -> (node, next position)
+    node ::= ('for', header, [nodes]) | ('if', cond, [nodes], [nodes]) | ('stmt', text) | ('block', [nodes])"""
+    if s.startswith("{", p):
+        q = _match_paren(s, p, "{", "}")
+        return ("block", parse_seq(s[p + 1:q])), q + 1
+    m = re.compile(r"(for|if|while|switch|do)\b").match(s, p)
+    if m and m.group(1) in ("while", "switch", "do"):
+        raise TranslateError("control flow `%s` outside the grammar" % m.group(1))
+    if m and s.startswith("(", m.end()):
+        q = _match_paren(s, m.end())
+        head = s[m.end() + 1:q]
+        body, r = parse_stmt(s, q + 1)
+        body = body[1] if body[0] == "block" else [body]
+        if m.group(1) == "for":
+            return ("for", head, body), r
+        els = []
+        if re.compile(r"else\b").match(s, r):
+            r2 = r + 4
+            if s.startswith(" ", r2):
+                r2 += 1
+            e, r = parse_stmt(s, r2)
+            els = e[1] if e[0] == "block" else [e]
+        return ("if", head, body, els), r
+    # plain statement up to ';' at depth 0
+    i = p
+    depth = 0
+    while i < len(s):
+        c = s[i]
+        if c == '"':
+            i += 1
+            while i < len(s) and s[i] != '"':
+                i += 2 if s[i] == "\\" else 1
+        elif c in "([":
+            depth += 1
+        elif c in ")]":
+            depth -= 1
+        elif c in "{}":
+            raise TranslateError("brace inside a statement: %r" % s[p:i + 10])
+        elif c == ";" and depth == 0:
+            return ("stmt", s[p:i]), i + 1
+        i += 1
+    raise TranslateError("statement not terminated: %r" % s[p:p + 60])
+
+
+def parse_seq(s):
+    nodes = []
+    p = 0
+    while p < len(s):
+        if s[p] in " ;":
+            p += 1
+            continue
+        nd, p = parse_stmt(s, p)
+        if nd[0] == "block":
+            nodes.extend(nd[1])
+        else:
+            nodes.append(nd)
+    return nodes
+
+
+IGNORABLE = re.compile(r"(using std::\w+|using \w+=typename FieldTraits<\w+>::real_type|typedef typename FieldTraits<\w+>::real_type \w+"
+                       r"|typedef typename std::vector<size_type>::size_type size_type)$")
+
+
+def significant(nodes):
+    return [nd for nd in nodes if not (nd[0] == "stmt" and IGNORABLE.match(nd[1]))]
+
+
+ROWS = r"(?:A\.rows\(\)|rows\(\)|n|pivot_\.size\(\))"
+
+
+def loop_header(head, what):
+    """`T v=S;v<B;v++` -> (var, start, cond, direction) with the bound canonicalised to `n`"""
+    m = re.fullmatch(r"(?:const )?(?:[\w:]+) (\w+)=([^;]*);([^;]*);([^;]*)", head)
+    if not m:
+        raise TranslateError("%s: loop header outside the grammar: %r" % (what, head))
+    v, start, cond, inc = m.groups()
+    if inc in (v + "++", "++" + v, v + "+=1"):
+        d = "up"
+    elif inc in (v + "--", "--" + v, v + "-=1"):
+        d = "down"
+    elif inc == "":
+        d = "body"
+    else:
+        raise TranslateError("%s: loop increment outside the grammar: %r" % (what, inc))
+    canon = lambda t: re.sub(ROWS, "n", t)
+    return v, canon(start), canon(cond), d
+
+
+class Ren:
+    """renaming of loop variables / locals to the canonical names the generated text uses"""
+
+    def __init__(self):
+        self.map = {}
+
+    def bind(self, actual, canon):
+        self.map[actual] = canon
+
+    def __call__(self, text):
+        return re.sub(r"[A-Za-z_]\w*", lambda m: self.map.get(m.group(0), m.group(0)), text)
+
+
+def expect_loop(node, ren, canon_var, want_start, want_cond, want_dir, what):
+    if node[0] != "for":
+        raise TranslateError("%s: expected a for loop, found %r" % (what, node[:2]))
+    v, start, cond, d = loop_header(node[1], what)
+    start = ren(start)
+    ren.bind(v, canon_var)
+    cond = ren(cond)
+    return (canon_var, start, cond, d)
+
+
+def kernel(name, text, atoms, params, what, doc, ret="K", classes=None):
+    """text: an expression over the atoms (regex -> parameter name); emits a Lean definition"""
+    t = text
+    for rx, pn in atoms:
+        t = re.sub(rx, " " + pn + " ", t)
+    blk = Block(0, what, None)
+    blk.locals = set(params)
+    try:
+        e = blk.full_expr(tokenize(t))
+    except TranslateError as ex:
+        raise TranslateError("%s: right-hand side %r outside the grammar (%s)" % (what, text, ex))
+    return "/-- %s -/\ndef %s %s (%s : K) : %s :=\n  %s" % (
+        doc, name, classes or CLASSES, " ".join("v_" + q for q in params), ret, e)
+
+
+def compound(stmt, what):
+    """`L op= R` / `L = R` -> (L, expression text with the compound operator spelled out)"""
+    m = re.fullmatch(r"(.+?)([-+*/]?)=(?!=)(.+)", stmt)
+    if not m or m.group(1).endswith(("<", ">", "!", "=")):
+        raise TranslateError("%s: assignment expected, found %r" % (what, stmt))
+    lhs, op, rhs = m.groups()
+    if op:
+        return lhs, "(%s)%s(%s)" % (lhs, op, rhs)
+    return lhs, rhs
+
+
+def cond_kernel(name, text, args, what, doc, ty="K", lits=None):
+    """`Simd::cond(M, X, Y)` with X, Y among `args` (dict source text -> Lean text)"""
+    m = re.fullmatch(r"Simd::cond\((.+)\)", text)
+    if not m:
+        raise TranslateError("%s: Simd::cond(...) expected, found %r" % (what, text))
+    parts = split_args(m.group(1))
+    if len(parts) != 3:
+        raise TranslateError("%s: Simd::cond with %d arguments" % (what, len(parts)))
+    return parts
+
+
+def split_args(s):
+    out, depth, cur = [], 0, ""
+    for c in s:
+        if c in "([<" and not (c == "<" and depth == 0 and False):
+            depth += 1 if c != "<" else 0
+        if c in ")]":
+            depth -= 1
+        if c == "," and depth == 0:
+            out.append(cur)
+            cur = ""
+        else:
+            cur += c
+    out.append(cur)
+    return out
+
+
+def lean_str_list(xs):
+    return "[" + ", ".join('"%s"' % x for x in xs) + "]"
+
+
+def lean_loops(loops):
+    return "[" + ", ".join('("%s", "%s", "%s", "%s")' % l for l in loops) + "]"
+
+
+def lane_swap(node, ren, what):
+    """`for (l < Simd::lanes(..)) swap(Simd::lane(l, X), Simd::lane(l, Y))` or plain `swap(X, Y)` -> (X, Y) canonical;
+    `Simd::lane(l, e)` inside X, Y is replaced by e (one lane)"""
+    if node[0] == "for":
+        m = re.fullmatch(r"std::size_t (\w+)=0;\1<Simd::lanes\([^;]*\);(?:\+\+\1|\1\+\+)", node[1])
+        if not m or len(node[2]) != 1 or node[2][0][0] != "stmt":
+            raise TranslateError("%s: lane loop outside the grammar: %r" % (what, node[1]))
+        lv = m.group(1)
+        st = node[2][0][1]
+    elif node[0] == "stmt":
+        lv = None
+        st = node[1]
+    else:
+        raise TranslateError("%s: swap statement expected" % what)
+    m = re.fullmatch(r"(?:std::)?swap\((.+)\)", st)
+    if not m:
+        raise TranslateError("%s: swap(...) expected, found %r" % (what, st))
+    parts = split_args(m.group(1))
+    if len(parts) != 2:
+        raise TranslateError("%s: swap with %d arguments" % (what, len(parts)))
+
+    def unlane(t):
+        if lv is None:
+            return t
+        prev = None
+        while prev != t:
+            prev = t
+            t = re.sub(r"Simd::lane\(%s,([^(),]*(?:\([^()]*\))?[^(),]*)\)" % lv, r"\1", t)
+        return t
+    return tuple(ren(unlane(x)) for x in parts)
+
+
+def translate_lu(dm, diag):
+    out = []
+    dmn = dm
+
+    # ---------------- luDecomposition ----------------
+    body = function_body(dmn, r"luDecomposition\s*\(\s*DenseMatrix<MAT>\s*&\s*A\s*,\s*Func\s+func\s*,\s*Mask\s*&\s*nonsingularLanes\s*,"
+                              r"\s*bool\s+throwEarly\s*,\s*bool\s+doPivoting\s*\)(?=\s*\{)", "luDecomposition")
+    top = significant(parse_seq(normalize(body)))
+    W = "luDecomposition"
+    if len(top) != 1:
+        raise TranslateError("%s: expected exactly one outer loop, found %d statements" % (W, len(top)))
+    ren = Ren()
+    loops = [expect_loop(top[0], ren, "i", None, None, None, W)]
+    ob = significant(top[0][2])
+    if len(ob) != 5:
+        raise TranslateError("%s: outer loop body has %d statements (expected pivmax, if(doPivoting), singularity test, "
+                             "if(throwEarly), elimination loop)" % (W, len(ob)))
+    # (1) real_type pivmax = fvmeta::absreal(A[i][i]);
+    m = ob[0][0] == "stmt" and re.fullmatch(r"(?:real_type|auto) (\w+)=fvmeta::absreal\((.+)\)", ob[0][1])
+    if not m or ren(m.group(2)) != "A[i][i]":
+        raise TranslateError("%s: first statement of the outer loop outside the grammar: %r" % (W, ob[0][1:2]))
+    ren.bind(m.group(1), "pivmax")
+    # (2) if (doPivoting) { imax = i; search loop; row swap loop; func.swap(i, imax); }
+    if ob[1][0] != "if" or ob[1][1] != "doPivoting" or ob[1][3]:
+        raise TranslateError("%s: `if (doPivoting)` without else expected as second statement" % W)
+    pb = significant(ob[1][2])
+    if len(pb) != 4:
+        raise TranslateError("%s: pivoting block has %d statements (expected 4)" % (W, len(pb)))
+    m = pb[0][0] == "stmt" and re.fullmatch(r"(?:simd_index_type|auto) (\w+)=(.+)", pb[0][1])
+    if not m or ren(m.group(2)) not in ("i", "simd_index_type(i)"):
+        raise TranslateError("%s: `simd_index_type imax=i` expected, found %r" % (W, pb[0][1:2]))
+    ren.bind(m.group(1), "imax")
+    r2 = Ren(); r2.map = dict(ren.map)
+    search_loop = expect_loop(pb[1], r2, "k", None, None, None, W + " pivot search")
+    sb = significant(pb[1][2])
+    if len(sb) != 4 or any(x[0] != "stmt" for x in sb):
+        raise TranslateError("%s: pivot search body has %d statements (expected abs, mask, pivmax, imax)" % (W, len(sb)))
+    m = re.fullmatch(r"auto (\w+)=fvmeta::absreal\((.+)\)", sb[0][1])
+    if not m or r2(m.group(2)) != "A[k][i]":
+        raise TranslateError("%s: `auto abs = fvmeta::absreal(A[k][i])` expected, found %r" % (W, sb[0][1]))
+    r2.bind(m.group(1), "abs")
+    m = re.fullmatch(r"auto (\w+)=(\w+)(>=|>|<=|<)(\w+)", sb[1][1])
+    if not m:
+        raise TranslateError("%s: `auto mask = abs > pivmax` expected, found %r" % (W, sb[1][1]))
+    r2.bind(m.group(1), "mask")
+    l, op, r = r2(m.group(2)), m.group(3), r2(m.group(4))
+    if {l, r} != {"abs", "pivmax"}:
+        raise TranslateError("%s: pivot comparison between %s and %s" % (W, l, r))
+    if l == "pivmax":            # pivmax < abs  ==  abs > pivmax
+        op = {"<": ">", "<=": ">=", ">": "<", ">=": "<="}[op]
+    leanop = {">": "v_pivmax < v_abs", ">=": "v_pivmax ≤ v_abs", "<": "v_abs < v_pivmax", "<=": "v_abs ≤ v_pivmax"}[op]
+    cls = "{Q : Type} [LT Q] [DecidableLT Q] [LE Q] [DecidableLE Q]"
+    out.append("/-- pivot search: `mask = %s` (candidate `abs` = |A[k][i]| against the running maximum) -/\n"
+               "def luPivotBetter %s (v_abs v_pivmax : Q) : Bool :=\n  decide (%s)" % ("abs " + op + " pivmax", cls, leanop))
+    for idx, (target, a, b) in enumerate((("pivmax", "abs", "pivmax"), ("imax", "simd_index_type(k)", "imax"))):
+        lhs, rhs = compound(sb[2 + idx][1], W)
+        if r2(lhs) != target:
+            raise TranslateError("%s: assignment to %s expected, found %r" % (W, target, sb[2 + idx][1]))
+        parts = [r2(x) for x in cond_kernel(None, rhs, None, W, None)]
+        parts = [re.sub(r"^simd_index_type\((\w+)\)$", r"\1", x) for x in parts]
+        a = re.sub(r"^simd_index_type\((\w+)\)$", r"\1", a)
+        if parts[0] != "mask" or set(parts[1:]) != {a, b}:
+            raise TranslateError("%s: `%s = Simd::cond(mask, %s, %s)` expected, found %r" % (W, target, a, b, sb[2 + idx][1]))
+        nm = "luPivmaxUpdate" if target == "pivmax" else "luImaxUpdate"
+        out.append("/-- pivot search: `%s = Simd::cond(mask, %s, %s)` -/\n"
+                   "def %s {α : Type} (v_mask : Bool) (v_new v_old : α) : α :=\n  if v_mask then %s else %s"
+                   % (target, parts[1], parts[2], nm, "v_new" if parts[1] == a else "v_old",
+                      "v_new" if parts[2] == a else "v_old"))
+    r3 = Ren(); r3.map = dict(ren.map)
+    loops.append(expect_loop(pb[2], r3, "j", None, None, None, W + " row swap"))
+    rs = significant(pb[2][2])
+    if len(rs) != 1:
+        raise TranslateError("%s: row swap loop body has %d statements" % (W, len(rs)))
+    sw = lane_swap(rs[0], r3, W + " row swap")
+    out.append("/-- the row exchange: operands of the `swap` inside `for j` (one lane) -/\n"
+               "def luRowSwap : List String := %s" % lean_str_list(sorted(sw)))
+    m = pb[3][0] == "stmt" and re.fullmatch(r"func\.swap\((.+)\)", pb[3][1])
+    if not m:
+        raise TranslateError("%s: `func.swap(i, imax)` expected after the row swap, found %r" % (W, pb[3][1:2]))
+    out.append("/-- arguments of `func.swap(...)` (called after the rows of A have been exchanged, only under doPivoting) -/\n"
+               "def luFuncSwapArgs : List String := %s" % lean_str_list([ren(x) for x in split_args(m.group(1))]))
+    # (3) nonsingularLanes = nonsingularLanes && (pivmax != real_type(0));
+    st = ob[2][1] if ob[2][0] == "stmt" else ""
+    ZERO = r"(?:real_type\(0(?:\.0*)?\)|0(?:\.0*)?)"
+    m = (re.fullmatch(r"nonsingularLanes=nonsingularLanes&&\((\w+)!=" + ZERO + r"\)", st)
+         or re.fullmatch(r"nonsingularLanes=nonsingularLanes&&!\((\w+)==" + ZERO + r"\)", st)
+         or re.fullmatch(r"nonsingularLanes=nonsingularLanes&&\(" + ZERO + r"!=(\w+)\)", st))
+    if not m or ren(m.group(1)) != "pivmax":
+        raise TranslateError("%s: singularity test outside the grammar: %r" % (W, st))
+    out.append("/-- `nonsingularLanes = nonsingularLanes && (pivmax != real_type(0))` -/\n"
+               "def luNonsingular {Q : Type} [BEq Q] [OfNat Q 0] (v_lanes : Bool) (v_pivmax : Q) : Bool :=\n"
+               "  v_lanes && !(v_pivmax == 0)")
+    # (4) if (throwEarly) { if(!allTrue) DUNE_THROW(FMatrixError, ..) } else { if(!anyTrue) return; }
+    nd = ob[3]
+    okshape = (nd[0] == "if" and nd[1] == "throwEarly" and len(nd[2]) == 1 and len(nd[3]) == 1
+               and nd[2][0][0] == "if" and nd[2][0][1] == "!Simd::allTrue(nonsingularLanes)" and not nd[2][0][3]
+               and len(nd[2][0][2]) == 1 and nd[2][0][2][0][0] == "stmt"
+               and re.fullmatch(r'DUNE_THROW\(FMatrixError,.*\)', nd[2][0][2][0][1])
+               and nd[3][0][0] == "if" and nd[3][0][1] == "!Simd::anyTrue(nonsingularLanes)" and not nd[3][0][3]
+               and len(nd[3][0][2]) == 1 and nd[3][0][2][0] == ("stmt", "return"))
+    if not okshape:
+        raise TranslateError("%s: the throwEarly / return block after the singularity test is outside the grammar" % W)
+    out.append("/-- what happens when a lane is singular: (throwEarly, !throwEarly); the test sits between the row exchange "
+               "and the elimination loop -/\ndef luOnSingular : List String := "
+               + lean_str_list(["throw FMatrixError unless all lanes nonsingular", "return when no lane nonsingular"]))
+    # (5) elimination loop
+    r4 = Ren(); r4.map = dict(ren.map)
+    loops.append(expect_loop(ob[4], r4, "k", None, None, None, W + " elimination"))
+    eb = significant(ob[4][2])
+    if len(eb) != 4:
+        raise TranslateError("%s: elimination loop body has %d statements (expected factor, store, inner loop, func)" % (W, len(eb)))
+    m = eb[0][0] == "stmt" and re.fullmatch(r"(?:const )?(?:field_type|auto) (\w+)=(.+)", eb[0][1])
+    if not m:
+        raise TranslateError("%s: `field_type factor = ...` expected, found %r" % (W, eb[0][1:2]))
+    fexpr = r4(m.group(2))
+    r4.bind(m.group(1), "factor")
+    A2 = lambda a, b: (r"A\[%s\]\[%s\]" % (a, b), "a_%s%s" % (a, b))
+    out.append(kernel("luFactor", fexpr, [A2("k", "i"), A2("i", "i")], ["a_ki", "a_ii"], W,
+                      "`field_type factor = %s`" % fexpr))
+    if eb[1][0] != "stmt" or r4(eb[1][1]) != "A[k][i]=factor":
+        raise TranslateError("%s: `A[k][i] = factor` expected, found %r" % (W, eb[1][1:2]))
+    loops.append(expect_loop(eb[2], r4, "j", None, None, None, W + " elimination (columns)"))
+    ib = significant(eb[2][2])
+    if len(ib) != 1 or ib[0][0] != "stmt":
+        raise TranslateError("%s: inner elimination loop body outside the grammar" % W)
+    lhs, rhs = compound(r4(ib[0][1]), W)
+    if lhs != "A[k][j]":
+        raise TranslateError("%s: update of A[k][j] expected, found %r" % (W, ib[0][1]))
+    out.append(kernel("luUpdate", rhs, [A2("k", "j"), A2("i", "j"), (r"\bfactor\b", "fac")], ["a_kj", "fac", "a_ij"], W,
+                      "`A[k][j] = %s`" % rhs))
+    m = eb[3][0] == "stmt" and re.fullmatch(r"func\((.+)\)", eb[3][1])
+    if not m:
+        raise TranslateError("%s: `func(factor, k, i)` expected, found %r" % (W, eb[3][1:2]))
+    out.append("/-- arguments of `func(...)` at the end of each row elimination -/\n"
+               "def luFuncElimArgs : List String := %s" % lean_str_list([r4(x) for x in split_args(m.group(1))]))
+    out.append("/-- the loops of luDecomposition in source order (outer, row exchange, elimination rows, elimination columns): "
+               "(variable, start, condition, direction), names canonical, `n` = A.rows() -/\n"
+               "def luLoops : List (String × String × String × String) := " + lean_loops(loops))
+    out.append("/-- the pivot search loop (whether it starts at `i` or `i+1` makes no difference: row i is the initial candidate) -/\n"
+               "def luSearchLoop : String × String × String × String := " + lean_loops([search_loop])[1:-1])
+
+    # ---------------- the functors ----------------
+    fb = normalize(function_body(dmn, r"DenseMatrix<MAT>::ElimPivot::ElimPivot\s*\(\s*std::vector<simd_index_type>\s*&\s*pivot\s*\)"
+                                      r"\s*:\s*pivot_\s*\(\s*pivot\s*\)(?=\s*\{)", "ElimPivot::ElimPivot"))
+    nodes = significant(parse_seq(fb))
+    if len(nodes) != 1 or nodes[0][0] != "for":
+        raise TranslateError("ElimPivot constructor: one loop expected")
+    rr = Ren()
+    lp = expect_loop(nodes[0], rr, "i", None, None, None, "ElimPivot constructor")
+    bb = significant(nodes[0][2])
+    if len(bb) != 1 or bb[0][0] != "stmt" or rr(bb[0][1]) != "pivot_[i]=i":
+        raise TranslateError("ElimPivot constructor: `pivot_[i]=i` expected, found %r" % (bb[:1],))
+    out.append("/-- ElimPivot constructor: the loop and `pivot_[i] = i` -/\n"
+               "def elimPivotInitLoop : List (String × String × String × String) := %s\n"
+               "def elimPivotInit (i : Nat) : Nat := i" % lean_loops([lp]))
+    fb = normalize(function_body(dmn, r"DenseMatrix<MAT>::ElimPivot::swap\s*\(\s*std::size_t\s+i\s*,\s*simd_index_type\s+j\s*\)(?=\s*\{)",
+                                 "ElimPivot::swap"))
+    nodes = significant(parse_seq(fb))
+    if len(nodes) != 1 or nodes[0][0] != "stmt":
+        raise TranslateError("ElimPivot::swap: one statement expected")
+    lhs, rhs = compound(nodes[0][1], "ElimPivot::swap")
+    parts = cond_kernel(None, rhs, None, "ElimPivot::swap", None)
+    c = parts[0]
+    same = c in ("Simd::Scalar<simd_index_type>(i)==j", "simd_index_type(i)==j", "i==j", "j==i", "j==simd_index_type(i)")
+    diff = c in ("Simd::Scalar<simd_index_type>(i)!=j", "simd_index_type(i)!=j", "i!=j", "j!=i")
+    if lhs != "pivot_[i]" or not (same or diff) or set(parts[1:]) != {"pivot_[i]", "j"}:
+        raise TranslateError("ElimPivot::swap: `pivot_[i] = Simd::cond(i == j, pivot_[i], j)` expected, found %r" % nodes[0][1])
+    tr = {"pivot_[i]": "v_old", "j": "v_j"}
+    a, b = (parts[1], parts[2]) if same else (parts[2], parts[1])
+    out.append("/-- `ElimPivot::swap(i, j)`: `%s` (`v_same` = the condition `i == j`) -/\n"
+               "def elimPivotSwap {α : Type} (v_same : Bool) (v_old v_j : α) : α :=\n  if v_same then %s else %s"
+               % (nodes[0][1], tr[a], tr[b]))
+    # Elim<V>::operator()
+    ms = list(re.finditer(r"Elim<V>::operator\(\)\s*\(\s*const\s+typename\s+V::field_type\s*&\s*(\w+)\s*,\s*int\s+(\w+)\s*,\s*int\s+(\w+)\s*\)(?=\s*\{)", dmn))
+    if len(ms) != 1:
+        raise TranslateError("Elim<V>::operator(): expected exactly one definition, found %d" % len(ms))
+    rr = Ren()
+    for g, cn in zip(ms[0].groups(), ("factor", "k", "i")):
+        rr.bind(g, cn)
+    p = dmn.find("{", ms[0].end())
+    fb = normalize(dmn[p + 1:match_brace(dmn, p)])
+    nodes = significant(parse_seq(fb))
+    if len(nodes) != 1 or nodes[0][0] != "stmt":
+        raise TranslateError("Elim<V>::operator(): one statement expected")
+    lhs, rhs = compound(rr(nodes[0][1]), "Elim<V>::operator()")
+    if lhs != "(*rhs_)[k]":
+        raise TranslateError("Elim<V>::operator(): update of (*rhs_)[k] expected, found %r" % nodes[0][1])
+    out.append(kernel("elimRhsUpdate", rhs, [(r"\(\*rhs_\)\[k\]", "r_k"), (r"\(\*rhs_\)\[i\]", "r_i"), (r"\bfactor\b", "fac")],
+                      ["r_k", "fac", "r_i"], "Elim<V>::operator()", "`Elim<V>::operator()(factor, k, i)`: `(*rhs_)[k] = %s`" % rhs))
+    # Elim<V>::swap
+    fb = normalize(function_body(dmn, r"DenseMatrix<MAT>::Elim<V>::swap\s*\(\s*std::size_t\s+i\s*,\s*simd_index_type\s+j\s*\)(?=\s*\{)",
+                                 "Elim<V>::swap"))
+    nodes = significant(parse_seq(fb))
+    if len(nodes) != 1:
+        raise TranslateError("Elim<V>::swap: one (lane-wise) swap expected, found %d statements" % len(nodes))
+    sw = lane_swap(nodes[0], Ren(), "Elim<V>::swap")
+    out.append("/-- `Elim<V>::swap(i, j)`: operands of the exchange (one lane) -/\n"
+               "def elimRhsSwap : List String := %s" % lean_str_list(sorted(sw)))
+    # ElimDet (inline in the class)
+    m = re.search(r"struct\s+ElimDet\s*\{", dmn)
+    if not m:
+        raise TranslateError("struct ElimDet not found")
+    cls_body = dmn[m.end():match_brace(dmn, m.end() - 1)]
+    mc = re.search(r"ElimDet\s*\(\s*field_type\s*&\s*sign\s*\)\s*:\s*sign_\s*\(\s*sign\s*\)\s*\{([^{}]*)\}", cls_body)
+    if not mc or normalize(mc.group(1)) not in ("sign_=1;", "sign_=field_type(1);"):
+        raise TranslateError("ElimDet constructor: `sign_ = 1` expected")
+    out.append("/-- ElimDet constructor: `sign_ = 1` -/\ndef elimDetInit %s : K := (1 : K)" % CLASSES)
+    msw = re.search(r"void\s+swap\s*\(\s*std::size_t\s+i\s*,\s*simd_index_type\s+j\s*\)\s*\{", cls_body)
+    if not msw:
+        raise TranslateError("ElimDet::swap not found")
+    fb = normalize(cls_body[msw.end():match_brace(cls_body, msw.end() - 1)])
+    nodes = significant(parse_seq(fb))
+    if len(nodes) != 1 or nodes[0][0] != "stmt":
+        raise TranslateError("ElimDet::swap: one statement expected (control flow is outside the grammar)")
+    lhs, rhs = compound(nodes[0][1], "ElimDet::swap")
+    if lhs != "sign_":
+        raise TranslateError("ElimDet::swap: assignment to sign_ expected")
+    # rhs is  (sign_)*(Simd::cond(c, a, b))   or   Simd::cond(c, a, b)
+    mm = re.fullmatch(r"\(sign_\)\*\((Simd::cond\(.+\))\)", rhs)
+    pre = "v_sign * " if mm else ""
+    parts = cond_kernel(None, mm.group(1) if mm else rhs, None, "ElimDet::swap", None)
+    c = parts[0]
+    same = c in ("simd_index_type(i)==j", "i==j", "j==i", "Simd::Scalar<simd_index_type>(i)==j", "j==simd_index_type(i)")
+    diff = c in ("simd_index_type(i)!=j", "i!=j", "j!=i", "Simd::Scalar<simd_index_type>(i)!=j")
+    if not (same or diff):
+        raise TranslateError("ElimDet::swap: condition %r outside the grammar" % c)
+
+    def sgn(t):
+        blk = Block(0, "ElimDet::swap", None)
+        blk.locals = {"sign"}
+        return blk.full_expr(tokenize(re.sub(r"\bsign_\b", " sign ", t)))
+    a, b = sgn(parts[1]), sgn(parts[2])
+    if diff:
+        a, b = b, a
+    out.append("/-- `ElimDet::swap(i, j)`: `%s` (`v_same` = the condition `i == j`) -/\n"
+               "def elimDetSwap %s (v_same : Bool) (v_sign : K) : K :=\n  %s(if v_same then %s else %s)"
+               % (nodes[0][1], CLASSES, pre, a, b))
+    for nm, rx in (("ElimPivot", r"struct\s+ElimPivot\s*\{"), ("ElimDet", r"struct\s+ElimDet\s*\{")):
+        m = re.search(rx, dmn)
+        cb = dmn[m.end():match_brace(dmn, m.end() - 1)]
+        mo = re.search(r"void\s+operator\(\)\s*\(([^)]*)\)\s*\{([^{}]*)\}", cb)
+        if not mo or mo.group(2).strip():
+            raise TranslateError("%s::operator(): an empty body expected" % nm)
+
+    # ---------------- the LU branches of solve / invert / determinant ----------------
+    def lu_call(nodes, what):
+        calls = [nd for nd in nodes if nd[0] == "stmt" and "luDecomposition(" in nd[1]]
+        if len(calls) != 1:
+            raise TranslateError("%s: expected exactly one call of luDecomposition, found %d" % (what, len(calls)))
+        m = re.fullmatch(r"(?:AutonomousValue<MAT>::|MAT::)?luDecomposition\((.+)\)", calls[0][1])
+        if not m:
+            raise TranslateError("%s: call of luDecomposition outside the grammar: %r" % (what, calls[0][1]))
+        args = split_args(m.group(1))
+        if len(args) != 5:
+            raise TranslateError("%s: luDecomposition called with %d arguments" % (what, len(args)))
+        copies = [nd for nd in nodes if nd[0] == "stmt"
+                  and re.fullmatch(r"(?:AutonomousValue<MAT>|MAT )%s\((?:asImp\(\)|\*this)\)" % re.escape(args[0]), nd[1])]
+        iscopy = len(copies) == 1 and nodes.index(copies[0]) < nodes.index(calls[0])
+        if args[3] not in ("true", "false"):
+            raise TranslateError("%s: throwEarly argument %r is not a literal" % (what, args[3]))
+        masks = [nd for nd in nodes if nd[0] == "stmt" and re.fullmatch(r"Simd::Mask<.*>%s\(true\)" % re.escape(args[2]), nd[1])]
+        if len(masks) != 1:
+            raise TranslateError("%s: `Simd::Mask<..> %s(true)` expected before the call" % (what, args[2]))
+        return args, iscopy, nodes.index(calls[0])
+
+    def lu_branch(fname, hdr):
+        nodes = significant(parse_seq(normalize(function_body(dmn, hdr, fname))))
+        # follow the else-chain of the rows()==k tests; determinant returns from the closed forms instead
+        cur = nodes
+        while True:
+            ifs = [nd for nd in cur if nd[0] == "if" and re.fullmatch(r"rows\(\)==\d+", nd[1])]
+            if not ifs:
+                break
+            last = ifs[-1]
+            if last[3]:
+                cur = last[3]
+            else:
+                cur = cur[cur.index(last) + 1:]
+                break
+        return cur
+
+    sol = lu_branch("solve", r"DenseMatrix<MAT>::solve\s*\(\s*V1\s*&\s*x\s*,\s*const\s+V2\s*&\s*b\s*,\s*bool\s+doPivoting\s*\)\s*const")
+    args, iscopy, ci = lu_call(sol, "solve")
+    W = "solve (LU branch)"
+    pre = [nd[1] for nd in sol[:ci] if nd[0] == "stmt"]
+    if "V1&rhs=x" not in pre or "rhs=b" not in pre or pre.index("V1&rhs=x") > pre.index("rhs=b"):
+        raise TranslateError("%s: `V1& rhs = x; rhs = b;` expected before the decomposition" % W)
+    mfun = [t for t in pre if re.fullmatch(r"Elim<V1>%s\(rhs\)" % re.escape(args[1]), t)]
+    if len(mfun) != 1:
+        raise TranslateError("%s: the functor must be `Elim<V1> %s(rhs)`" % (W, args[1]))
+    out.append("/-- the call `luDecomposition(A, elim, nonsingularLanes, %s, %s)` in solve: (A is a local copy of *this, "
+               "throwEarly, the caller's doPivoting is passed on, functor) -/\n"
+               "def solveLUCall : Bool × Bool × Bool × String := (%s, %s, %s, \"Elim(rhs), rhs = x = copy of b\")"
+               % (args[3], args[4], "true" if iscopy else "false", args[3], "true" if args[4] == "doPivoting" else "false"))
+    rest = sol[ci + 1:]
+    if len(rest) != 1:
+        raise TranslateError("%s: exactly the back substitution loop expected after the decomposition" % W)
+    rr = Ren(); rr.bind("rhs", "x")
+    loops = [expect_loop(rest[0], rr, "i", None, None, None, W)]
+    bb = significant(rest[0][2])
+    if len(bb) != 2 or bb[0][0] != "for" or bb[1][0] != "stmt":
+        raise TranslateError("%s: back substitution body: inner loop + division expected" % W)
+    loops.append(expect_loop(bb[0], rr, "j", None, None, None, W))
+    ib = significant(bb[0][2])
+    if len(ib) != 1 or ib[0][0] != "stmt":
+        raise TranslateError("%s: inner back substitution loop outside the grammar" % W)
+    lhs, rhs = compound(rr(ib[0][1]), W)
+    if lhs != "x[i]":
+        raise TranslateError("%s: update of rhs[i] expected, found %r" % (W, ib[0][1]))
+    X1 = lambda a: (r"\bx\[%s\]" % a, "x_%s" % a)
+    out.append(kernel("backSubstStep", rhs, [A2("i", "j"), X1("i"), X1("j")], ["x_i", "a_ij", "x_j"], W,
+                      "back substitution, inner loop: `rhs[i] = %s` (rhs and x are the same object)" % rhs))
+    lhs, rhs = compound(rr(bb[1][1]), W)
+    if lhs != "x[i]":
+        raise TranslateError("%s: `x[i] = rhs[i]/A[i][i]` expected, found %r" % (W, bb[1][1]))
+    out.append(kernel("backSubstDiv", rhs, [A2("i", "i"), X1("i")], ["x_i", "a_ii"], W,
+                      "back substitution, after the inner loop: `x[i] = %s`" % rhs))
+    out.append("/-- loops of the back substitution -/\ndef backSubstLoops : List (String × String × String × String) := "
+               + lean_loops(loops))
+
+    # determinant
+    det = lu_branch("determinant", r"DenseMatrix<MAT>::determinant\s*\(\s*bool\s+doPivoting\s*\)\s*const")
+    args, iscopy, ci = lu_call(det, "determinant")
+    W = "determinant (LU branch)"
+    pre = [nd[1] for nd in det[:ci] if nd[0] == "stmt"]
+    if "field_type det" not in pre or args[1] != "ElimDet(det)":
+        raise TranslateError("%s: `field_type det; ... ElimDet(det)` expected" % W)
+    out.append("/-- the call `luDecomposition(A, ElimDet(det), nonsingularLanes, %s, %s)` in determinant -/\n"
+               "def determinantLUCall : Bool × Bool × Bool × String := (%s, %s, %s, \"ElimDet(det)\")"
+               % (args[3], args[4], "true" if iscopy else "false", args[3], "true" if args[4] == "doPivoting" else "false"))
+    rest = det[ci + 1:]
+    if len(rest) != 3 or rest[0][0] != "for" or rest[1][0] != "stmt" or rest[2] != ("stmt", "return det"):
+        raise TranslateError("%s: product loop, mask, `return det` expected after the decomposition" % W)
+    rr = Ren()
+    loops = [expect_loop(rest[0], rr, "i", None, None, None, W)]
+    bb = significant(rest[0][2])
+    if len(bb) != 1 or bb[0][0] != "stmt":
+        raise TranslateError("%s: product loop body outside the grammar" % W)
+    lhs, rhs = compound(rr(bb[0][1]), W)
+    if lhs != "det":
+        raise TranslateError("%s: `det *= A[i][i]` expected, found %r" % (W, bb[0][1]))
+    out.append(kernel("detStep", rhs, [A2("i", "i"), (r"\bdet\b", "det")], ["det", "a_ii"], W, "`det = %s`" % rhs))
+    lhs, rhs = compound(rest[1][1], W)
+    parts = cond_kernel(None, rhs, None, W, None)
+    if lhs != "det" or parts[0] != args[2] or parts[1] != "det" or parts[2] not in ("field_type(0)", "field_type(0.0)", "0"):
+        raise TranslateError("%s: `det = Simd::cond(nonsingularLanes, det, field_type(0))` expected, found %r" % (W, rest[1][1]))
+    out.append("/-- `det = Simd::cond(nonsingularLanes, det, field_type(0))` after the product -/\n"
+               "def detMask %s (v_ok : Bool) (v_det : K) : K :=\n  if v_ok then v_det else (0 : K)" % CLASSES)
+    out.append("/-- loop of the determinant product -/\ndef detLoops : List (String × String × String × String) := " + lean_loops(loops))
+
+    # invert
+    inv = lu_branch("invert", r"DenseMatrix<MAT>::invert\s*\(\s*bool\s+doPivoting\s*\)")
+    args, iscopy, ci = lu_call(inv, "invert")
+    W = "invert (LU branch)"
+    pre = [nd[1] for nd in inv[:ci] if nd[0] == "stmt"]
+    if "std::vector<simd_index_type>pivot(rows())" not in pre or args[1] != "ElimPivot(pivot)":
+        raise TranslateError("%s: `std::vector<simd_index_type> pivot(rows()); ... ElimPivot(pivot)` expected" % W)
+    out.append("/-- the call `luDecomposition(A, ElimPivot(pivot), nonsingularLanes, %s, %s)` in invert -/\n"
+               "def invertLUCall : Bool × Bool × Bool × String := (%s, %s, %s, \"ElimPivot(pivot), pivot local of size rows()\")"
+               % (args[3], args[4], "true" if iscopy else "false", args[3], "true" if args[4] == "doPivoting" else "false"))
+    rest = [nd for nd in inv[ci + 1:] if not (nd[0] == "stmt" and re.fullmatch(r"auto&[LU]=%s" % re.escape(args[0]), nd[1]))]
+    rr = Ren(); rr.bind("L", "A"); rr.bind("U", "A")
+    if (len(rest) != 5 or rest[0] != ("stmt", "*this=field_type(0)") or rest[1][0] != "for" or rest[2][0] != "for"
+            or rest[3][0] != "for" or rest[4][0] != "for"):
+        raise TranslateError("%s: expected `*this=field_type(0)`, identity loop, forward sweep, backward sweep, column "
+                             "un-permutation after the decomposition (found %d statements)" % (W, len(rest)))
+    r0 = Ren()
+    l0 = expect_loop(rest[1], r0, "i", None, None, None, W)
+    bb = significant(rest[1][2])
+    if len(bb) != 1 or bb[0][0] != "stmt" or r0(bb[0][1]) not in ("(*this)[i][i]=1", "(*this)[i][i]=field_type(1)"):
+        raise TranslateError("%s: `(*this)[i][i] = 1` expected" % W)
+    out.append("/-- initialisation of the inverse: `*this = 0; for i: (*this)[i][i] = 1` -/\n"
+               "def invertInitLoops : List (String × String × String × String) := " + lean_loops([l0]))
+    B2 = lambda a, b: (r"\(\*this\)\[%s\]\[%s\]" % (a, b), "b_%s%s" % (a, b))
+    # forward sweep
+    loops = [expect_loop(rest[2], rr, "i", None, None, None, W)]
+    n1 = significant(rest[2][2])
+    if len(n1) != 1 or n1[0][0] != "for":
+        raise TranslateError("%s: forward sweep: loop nest expected" % W)
+    loops.append(expect_loop(n1[0], rr, "j", None, None, None, W))
+    n2 = significant(n1[0][2])
+    if len(n2) != 1 or n2[0][0] != "for":
+        raise TranslateError("%s: forward sweep: loop nest expected" % W)
+    loops.append(expect_loop(n2[0], rr, "k", None, None, None, W))
+    n3 = significant(n2[0][2])
+    if len(n3) != 1 or n3[0][0] != "stmt":
+        raise TranslateError("%s: forward sweep body outside the grammar" % W)
+    lhs, rhs = compound(rr(n3[0][1]), W)
+    if lhs != "(*this)[i][k]":
+        raise TranslateError("%s: forward sweep: update of (*this)[i][k] expected" % W)
+    out.append(kernel("forwardStep", rhs, [B2("i", "k"), B2("j", "k"), A2("i", "j")], ["b_ik", "a_ij", "b_jk"], W,
+                      "forward sweep L Y = I: `(*this)[i][k] = %s`" % rhs))
+    out.append("/-- loops of the forward sweep -/\ndef forwardLoops : List (String × String × String × String) := " + lean_loops(loops))
+
+    def down_loop(node, ren, what):
+        """`for (size_type i=rows(); i>0; ) { --i; ... }` -> canonical header + remaining body"""
+        lp = expect_loop(node, ren, "i", None, None, None, what)
+        bb = significant(node[2])
+        if lp[3] != "body" or not bb or bb[0][0] != "stmt" or ren(bb[0][1]) not in ("--i", "i--", "i-=1"):
+            raise TranslateError("%s: `for (i = rows(); i > 0; ) { --i; ...` expected" % what)
+        return (lp[0], lp[1], lp[2], "down, --i first"), bb[1:]
+    rr = Ren(); rr.bind("L", "A"); rr.bind("U", "A")
+    lp, bb = down_loop(rest[3], rr, W + " backward sweep")
+    loops = [lp]
+    if len(bb) != 1 or bb[0][0] != "for":
+        raise TranslateError("%s: backward sweep: column loop expected" % W)
+    loops.append(expect_loop(bb[0], rr, "k", None, None, None, W))
+    cb = significant(bb[0][2])
+    if len(cb) != 2 or cb[0][0] != "for" or cb[1][0] != "stmt":
+        raise TranslateError("%s: backward sweep: inner loop + division expected" % W)
+    loops.append(expect_loop(cb[0], rr, "j", None, None, None, W))
+    ib = significant(cb[0][2])
+    if len(ib) != 1 or ib[0][0] != "stmt":
+        raise TranslateError("%s: backward sweep inner body outside the grammar" % W)
+    lhs, rhs = compound(rr(ib[0][1]), W)
+    if lhs != "(*this)[i][k]":
+        raise TranslateError("%s: backward sweep: update of (*this)[i][k] expected" % W)
+    out.append(kernel("backwardStep", rhs, [B2("i", "k"), B2("j", "k"), A2("i", "j")], ["b_ik", "a_ij", "b_jk"], W,
+                      "backward sweep U X = Y, inner loop: `(*this)[i][k] = %s`" % rhs))
+    lhs, rhs = compound(rr(cb[1][1]), W)
+    if lhs != "(*this)[i][k]":
+        raise TranslateError("%s: backward sweep: division of (*this)[i][k] expected" % W)
+    out.append(kernel("backwardDiv", rhs, [B2("i", "k"), A2("i", "i")], ["b_ik", "a_ii"], W,
+                      "backward sweep, after the inner loop: `(*this)[i][k] = %s`" % rhs))
+    out.append("/-- loops of the backward sweep -/\ndef backwardLoops : List (String × String × String × String) := " + lean_loops(loops))
+    # column un-permutation
+    rr = Ren()
+    lp, bb = down_loop(rest[4], rr, W + " column un-permutation")
+    if len(bb) != 1 or bb[0][0] != "for":
+        raise TranslateError("%s: un-permutation: lane loop expected" % W)
+    m = re.fullmatch(r"std::size_t (\w+)=0;\1<Simd::lanes\([^;]*\);(?:\+\+\1|\1\+\+)", bb[0][1])
+    if not m:
+        raise TranslateError("%s: un-permutation: lane loop header outside the grammar" % W)
+    lv = m.group(1)
+    lb = significant(bb[0][2])
+    if len(lb) != 2 or lb[0][0] != "stmt":
+        raise TranslateError("%s: un-permutation: `pi = lane(l, pivot[i]); [if (i != pi)] column swap loop` expected" % W)
+    m = re.fullmatch(r"(?:const )?(?:std::size_t|auto|size_type) (\w+)=Simd::lane\(%s,pivot\[(\w+)\]\)" % lv, lb[0][1])
+    if not m or rr(m.group(2)) != "i":
+        raise TranslateError("%s: `std::size_t pi = Simd::lane(l, pivot[i])` expected, found %r" % (W, lb[0][1]))
+    rr.bind(m.group(1), "pi")
+    nd = lb[1]
+    guarded = False
+    if nd[0] == "if":
+        if rr(nd[1]) not in ("i!=pi", "pi!=i") or nd[3] or len(nd[2]) != 1:
+            raise TranslateError("%s: guard of the column swap outside the grammar: %r" % (W, nd[1]))
+        guarded = True
+        nd = nd[2][0]
+    lj = expect_loop(nd, rr, "j", None, None, None, W)
+    sb = significant(nd[2])
+    if len(sb) != 1 or sb[0][0] != "stmt":
+        raise TranslateError("%s: column swap body outside the grammar" % W)
+    mm = re.fullmatch(r"(?:std::)?swap\((.+)\)", sb[0][1])
+    if not mm:
+        raise TranslateError("%s: swap expected in the un-permutation" % W)
+    ops = [rr(re.sub(r"^Simd::lane\(%s,(.+)\)$" % lv, r"\1", a)) for a in split_args(mm.group(1))]
+    out.append("/-- column un-permutation: outer loop, column loop, operands of the swap (`pi` = pivot[i]); the guard "
+               "`i != pi` %s -/\ndef unpermuteLoops : List (String × String × String × String) := %s\n"
+               "def unpermuteSwap : List String := %s"
+               % ("is present" if guarded else "is absent (swapping a column with itself changes nothing)",
+                  lean_loops([lp, lj]), lean_str_list(sorted(ops))))
+
+    # ---------------- DiagonalMatrix ----------------
+    dg = diag
+    W = "DiagonalMatrix::solve"
+    nodes = significant(parse_seq(normalize(function_body(dg, r"void\s+solve\s*\(\s*V\s*&\s*x\s*,\s*const\s+V\s*&\s*b\s*\)\s*const", W))))
+    if len(nodes) != 1 or nodes[0][0] != "for":
+        raise TranslateError("%s: one loop expected" % W)
+    rr = Ren()
+    lp = expect_loop(nodes[0], rr, "i", None, None, None, W)
+    bb = significant(nodes[0][2])
+    if len(bb) != 1 or bb[0][0] != "stmt":
+        raise TranslateError("%s: loop body outside the grammar" % W)
+    lhs, rhs = compound(rr(bb[0][1]), W)
+    if lhs != "x[i]":
+        raise TranslateError("%s: assignment to x[i] expected" % W)
+    D1 = (r"\bdiag_\[i\]", "d_i")
+    out.append(kernel("diagSolveEntry", rhs, [D1, (r"\bb\[i\]", "b_i")], ["d_i", "b_i"], W, "`DiagonalMatrix::solve`: `x[i] = %s`" % rhs))
+    W = "DiagonalMatrix::invert"
+    nodes = significant(parse_seq(normalize(function_body(dg, r"void\s+invert\s*\(\s*\)", W))))
+    if len(nodes) != 1 or nodes[0][0] != "for":
+        raise TranslateError("%s: one loop expected" % W)
+    rr = Ren()
+    lp2 = expect_loop(nodes[0], rr, "i", None, None, None, W)
+    bb = significant(nodes[0][2])
+    if len(bb) != 1 or bb[0][0] != "stmt":
+        raise TranslateError("%s: loop body outside the grammar" % W)
+    lhs, rhs = compound(rr(bb[0][1]), W)
+    if lhs != "diag_[i]":
+        raise TranslateError("%s: assignment to diag_[i] expected" % W)
+    out.append(kernel("diagInvertEntry", rhs, [D1], ["d_i"], W, "`DiagonalMatrix::invert`: `diag_[i] = %s`" % rhs))
+    W = "DiagonalMatrix::determinant"
+    nodes = significant(parse_seq(normalize(function_body(dg, r"K\s+determinant\s*\(\s*\)\s*const", W))))
+    if (len(nodes) != 3 or nodes[0][0] != "stmt" or nodes[1][0] != "for" or nodes[2][0] != "stmt"):
+        raise TranslateError("%s: `K det = diag_[0]; for ...; return det;` expected" % W)
+    m = re.fullmatch(r"(?:K|field_type|auto) (\w+)=diag_\[(\d+)\]", nodes[0][1])
+    if not m or nodes[2][1] != "return " + m.group(1):
+        raise TranslateError("%s: `K det = diag_[0]` ... `return det` expected" % W)
+    rr = Ren(); rr.bind(m.group(1), "det")
+    lp3 = expect_loop(nodes[1], rr, "i", None, None, None, W)
+    bb = significant(nodes[1][2])
+    if len(bb) != 1 or bb[0][0] != "stmt":
+        raise TranslateError("%s: loop body outside the grammar" % W)
+    lhs, rhs = compound(rr(bb[0][1]), W)
+    if lhs != "det":
+        raise TranslateError("%s: update of det expected" % W)
+    out.append(kernel("diagDetStep", rhs, [D1, (r"\bdet\b", "det")], ["det", "d_i"], W, "`DiagonalMatrix::determinant`: `det = %s`" % rhs))
+    out.append("/-- DiagonalMatrix: loops of solve, invert, determinant (the determinant starts from `diag_[%s]`) -/\n"
+               "def diagLoops : List (String × String × String × String) := %s\ndef diagDetInitIndex : Nat := %s"
+               % (m.group(2), lean_loops([lp, lp2, lp3]), m.group(2)))
+    return out
+
+
 HEADER = """-- GENERATED by tools/translators/tr_c02.py from dune/common/densematrix.hh and dune/common/fmatrix.hh -- do not edit
 /-! Closed forms of DenseMatrix::solve / invert / determinant for rows() = 1, 2, 3 and of
 FMatrixHelp::invertMatrix / invertMatrix_retTransposed, statement by statement in source order.
@@ -517,6 +1274,12 @@ def translate(repo):
         out.append("/-- default argument `bool doPivoting = %s` of the declaration in class DenseMatrix -/\n"
                    "def %s : Bool := %s" % (ms[0], lname, ms[0]))
 
+    dg = strip_checking(strip_comments(open(os.path.join(repo, "dune/common/diagonalmatrix.hh")).read()))
+    out.append("/-! ## round four: the LU path (luDecomposition, its functors, the LU branches of solve / invert /\n"
+               "determinant) and DiagonalMatrix: loop headers, statement order, call arguments and the scalar kernel of every\n"
+               "update statement, re-read from the source.  Tied to the hand-written model by the `tie_*` theorems of\n"
+               "Props/C02.lean. -/")
+    out.extend(translate_lu(dm, dg))
     out.append("end DV.C02.Gen")
     return [("DuneVerif/Gen/C02.lean", "\n\n".join(out) + "\n")]
 
